@@ -790,7 +790,7 @@ def explore_inits(spec):
     acc = Acc(max_fails=3)
     d = get_driver(spec["driver"], spec["seed"])
     model = Model(d)
-    mons = [MONITORS[m] for m in spec["monitors"]] + [mon_seams]
+    mons = [MONITORS[m] for m in spec["monitors"]]
     states = set()
     finals = set()
     capped = False
@@ -830,6 +830,10 @@ def explore_inits(spec):
                     acc.count("rounds", nr)
                     acc.count("exit", exit_reason(rec))
                     finals.add(tuple(stacked_labels(rec)))
+                for (msg, _sig) in mon_seams(rec):
+                    # not a property violation by itself: recorded, so that a reader of the
+                    # evidence knows the scripted seams did not own all nondeterminism
+                    acc.count("seam_warnings", msg[:60])
                 if log:
                     acc.count("runs_with_repopulation")
                     acc.count("donor_draws", by=len(log))
